@@ -30,6 +30,41 @@ func checkKeepWithoutMessageIndexes(p *Program, r *Result, rule string) {
 		_ = fnObj
 		fname := "mcap." + declName(fd)
 		ast.Inspect(fd.Body, func(n ast.Node) bool {
+			if ce, ok := n.(*ast.CallExpr); ok {
+				// second form: it.chunkIndexes = slices.DeleteFunc(it.chunkIndexes, func(idx *ChunkIndex) bool {...}):
+				// the literal's result (true = drop) with the message-index map empty must be false
+				if calleeQualifiedName(g, ce) == "slices.DeleteFunc" && len(ce.Args) == 2 {
+					fc0 := &formCtx{g: g, alias: aliases}
+					if fc0.term(ce.Args[0]) != "it.chunkIndexes" {
+						return true
+					}
+					found++
+					construct := "chunk index without message indexes is kept by the channel filter"
+					fl, ok := ast.Unparen(ce.Args[1]).(*ast.FuncLit)
+					if !ok {
+						r.abstain(rule, fname, construct, p.pos(ce.Pos()), "the predicate handed to slices.DeleteFunc is not a function literal: located, not judged")
+						return true
+					}
+					fc := &formCtx{g: g, alias: aliases, benv: map[types.Object]*bform{}, skipRange: emptyMap}
+					drop := fc.bodyForm(fl.Body.List)
+					if drop == nil {
+						r.abstain(rule, fname, construct, p.pos(ce.Pos()), "the predicate handed to slices.DeleteFunc is not in a modelled form (guards and returns): located, not judged")
+						return true
+					}
+					keep := simplifyForm(&bform{op: "not", kids: []*bform{drop}})
+					st, en := "it.start", "it.end"
+					cs, ce2 := "ChunkIndex.MessageStartTime", "ChunkIndex.MessageEndTime"
+					overlap := and(or(atom(cs, "<", en), atom(en, "==", "MAX")), atom(st, "<=", ce2), atom(cs, "<=", ce2), atom(st, "<=", en))
+					assume := and(atom("len(ChunkIndex.MessageIndexOffsets)", "==", "0"), overlap)
+					if cx := counterexample(assume, keep, nil); cx != "" {
+						r.violated(rule, fname, construct, p.pos(ce.Pos()),
+							"a chunk index that lists no message indexes is deleted when "+cx+" (delete condition with the message-index map empty: "+drop.String()+"); nothing can be inferred about the channels of such a chunk, so the index-based read silently loses its messages")
+					} else {
+						r.held(rule, fname, construct, p.pos(ce.Pos()), "delete condition with the message-index map empty: "+drop.String())
+					}
+				}
+				return true
+			}
 			rs, ok := n.(*ast.RangeStmt)
 			if !ok || rs.Value == nil {
 				return true
@@ -132,4 +167,12 @@ func checkKeepWithoutMessageIndexes(p *Program, r *Result, rule string) {
 	if found == 0 {
 		r.note(rule, "mcap.indexedMessageIterator", "channel filter over the chunk indexes", "", "no loop over it.chunkIndexes that appends the kept entries found: not judged")
 	}
+}
+
+func calleeQualifiedName(g *goLayouts, ce *ast.CallExpr) string {
+	fn := g.calleeOf(ce)
+	if fn == nil || fn.Pkg() == nil {
+		return ""
+	}
+	return fn.Pkg().Path() + "." + fn.Name()
 }
